@@ -279,7 +279,7 @@ _FCMP = {
 def compare(op: str, a, b):
     """Scalar comparison; returns Python bool, SBool, or (for arrays) an SArr of bools."""
     if isinstance(a, SArr) or isinstance(b, SArr):
-        return arr_elementwise(lambda x, y: _scalar_compare_term(op, x, y), a, b, 'bool')
+        return arr_elementwise(lambda x, y: _scalar_compare_term(op, x, y), a, b, 'bool', tag=('cmp', op, a, b))
     if not is_sym(a) and not is_sym(b):
         return _CMP[op](a, b)
     return simplify_value(SBool(_scalar_compare_term(op, a, b)))
@@ -314,7 +314,7 @@ def binop(op: str, a, b):
         ka = a.dtype if isinstance(a, SArr) else kind_of(a)
         kb = b.dtype if isinstance(b, SArr) else kind_of(b)
         rk = 'float' if 'float' in (ka, kb) or op == 'Div' else ka
-        return arr_elementwise(lambda x, y: _scalar_binop_term(op, x, y), a, b, rk)
+        return arr_elementwise(lambda x, y: _scalar_binop_term(op, x, y), a, b, rk, tag=('bin', op, a, b))
     if not is_sym(a) and not is_sym(b):
         import operator
         return {'Add': operator.add, 'Sub': operator.sub, 'Mult': operator.mul, 'Div': operator.truediv,
@@ -373,7 +373,7 @@ def unaryop(op: str, a):
         if op == 'Invert':
             if a.dtype != 'bool':
                 raise OutOfSubset('~ on a non-boolean array')
-            return a.map(lambda x: z3.Not(x), 'bool')
+            return a.map(lambda x: z3.Not(x), 'bool', tag=('not', a))
         if op == 'USub':
             if a.dtype == 'float':
                 return a.map(lambda x: z3.fpNeg(x), 'float')
@@ -425,19 +425,20 @@ class SArr(Sym):
     mutable = True
     _ids = itertools.count()
 
-    def __init__(self, length, arr, dtype: str, *, prov: str = 'fresh'):
+    def __init__(self, length, arr, dtype: str, *, prov: str = 'fresh', tag=None):
         self.length = length if not isinstance(length, int) else z3.IntVal(length)
         self.arr = arr
         self.dtype = dtype          # 'float' | 'int' | 'bool' | 'str'
         self.ident = next(SArr._ids)
         self.prov = prov
+        self.tag = tag              # how the array was computed, e.g. ('isfinite', src): lets np.any/np.all name vector-level facts
 
     def at(self, i):
         return wrap(z3.Select(self.arr, i))
 
-    def map(self, f: Callable, dtype: str) -> 'SArr':
+    def map(self, f: Callable, dtype: str, tag=None) -> 'SArr':
         i = z3.Int('i!map')
-        return SArr(self.length, z3.Lambda([i], f(z3.Select(self.arr, i))), dtype)
+        return SArr(self.length, z3.Lambda([i], f(z3.Select(self.arr, i))), dtype, tag=tag)
 
     def copy(self) -> 'SArr':
         return SArr(self.length, self.arr, self.dtype)
@@ -446,7 +447,28 @@ class SArr(Sym):
         return f'SArr({self.dtype},len={self.length})'
 
 
-def arr_elementwise(f, a, b, dtype: str) -> SArr:
+VEC_F = z3.ArraySort(INT, F64)
+# Vector-level facts (definitional: every use also assumes the defining instance, see libspec._quant):
+#   ALL_FINITE(a, n)        <=> forall 0 <= i < n. a[i] is neither inf nor nan
+#   ALL_CLOSE(a, b, n, tol) <=> forall 0 <= i < n. |a[i] - b[i]| < tol        (Float64, RNE subtraction, strict)
+ALL_FINITE = z3.Function('all_finite', VEC_F, INT, BOOL)
+ALL_CLOSE = z3.Function('all_close', VEC_F, VEC_F, INT, F64, BOOL)
+
+
+def is_finite_term(x):
+    return z3.Not(z3.Or(z3.fpIsInf(x), z3.fpIsNaN(x)))
+
+
+def all_finite_def(a, n):
+    return ALL_FINITE(a, n) == forall_range(0, n, lambda i: is_finite_term(z3.Select(a, i)), 'af')
+
+
+def all_close_def(a, b, n, tol):
+    return ALL_CLOSE(a, b, n, tol) == forall_range(
+        0, n, lambda i: z3.fpLT(z3.fpAbs(z3.fpSub(RNE, z3.Select(a, i), z3.Select(b, i))), tol), 'ac')
+
+
+def arr_elementwise(f, a, b, dtype: str, tag=None) -> SArr:
     """Element-wise binary operation with scalar broadcasting.  Two arrays must have equal length
     (checked by the caller through a safety obligation; here the left length is used)."""
     i = z3.Int('i!ew')
@@ -457,7 +479,7 @@ def arr_elementwise(f, a, b, dtype: str) -> SArr:
         return v
     length = a.length if isinstance(a, SArr) else b.length
     term = f(elt(a), elt(b))
-    return SArr(length, z3.Lambda([i], term), dtype)
+    return SArr(length, z3.Lambda([i], term), dtype, tag=tag)
 
 
 def norm_index(i, n):
@@ -553,6 +575,13 @@ class AnyException:
 
 
 ANY_EXCEPTION = AnyException()
+
+
+class Opaque(Sym):
+    """A havocked value of a type the verifier does not model; any use of it is out-of-subset."""
+
+    def __init__(self, why=''):
+        self.why = why
 
 
 class Unbound:
